@@ -53,7 +53,7 @@ impl Fam<'_> {
         }
     }
 
-    /// the three ways an element list reaches the operator: written in place (the folding pass sees it), as an argument
+    /// the ways an element list reaches the operator (a named self-calling iterator was added in round 11): written in place (the folding pass sees it), as an argument
     /// of a function (run time), through a user-written iterator over a cell (neither an array iterator nor constant)
     fn forms(&mut self, label: &str, ety: &str, lit: &str, tail: &str, want: &Variable) {
         let dflt = match ety {
@@ -71,6 +71,10 @@ impl Fam<'_> {
             ),
             want,
         );
+        // a named iterator that calls itself (every other pull is a recursive one), at top level and inside a function
+        let rec = format!("i := mut 0; skip := mut false; it := () -> (bool, {ety}) {{ if *i >= std.len(a) {{ return (false, {dflt}) }} if *skip {{ skip = false; i += 1; return (true, a[*i - 1]) }} skip = true; return it() }}; ");
+        self.judge(label, &format!("a := {lit}; {rec}it {tail}"), want);
+        self.judge(label, &format!("f := (a: [{ety}]) -> any {{ {rec}return it {tail} }}; f({lit})"), want);
     }
 
     fn ints(&mut self, l: &[i64]) {
